@@ -15,7 +15,10 @@ namespace Mqtt.Proofs.Codec
 open Mqtt.Model.Codec Mqtt.Iface.Codec Mqtt.Generated
 open Mqtt.Spec
 
-/-! ## layout of the reference encoding around the packet identifier -/
+/-! ## layout of an encoding around the packet identifier
+
+`Wire.encodeV V p` is the type/flags byte, the remaining-length bytes `V`, and the body of `p`
+(`Wire.encode p = Wire.encodeV (Wire.varint |body|) p`). -/
 
 theorem pub_flags (h : Hdr) : Wire.b2n (pubDup h) * 8 + pubQoS h * 2 + Wire.b2n (pubRetain h) = h.flags := by
   unfold pubDup pubQoS pubRetain Wire.b2n
@@ -34,74 +37,71 @@ theorem u8_pubQoS_zero (h : Hdr) : (UInt8.ofNat (pubQoS h) = 0) ↔ pubQoS h = 0
     exact this
   · intro e; rw [e]; rfl
 
-/-- the reference encoding of a PUBLISH object, spelled out -/
-theorem wire_publish (h : Hdr) (t p : Bytes) (ht : h.type = 3) :
-    Wire.encode (absMsg (.publish h t p)) =
-      h.tf :: (Wire.varint (2 + t.length + (if pubQoS h = 0 then 0 else 2) + p.length) ++
-        (Wire.str t ++ ((if pubQoS h = 0 then [] else Wire.u16 (u16of h.pid)) ++ p))) := by
-  simp only [absMsg, Wire.encode, Wire.Packet.type, Wire.Packet.flags, Wire.Packet.body]
-  rw [u8_pubQoS, pub_flags, ← ht, tf_eq]
+/-- the first byte of every encoding of a message's fields is its type/flags byte -/
+theorem head_tf (m : Msg) (hs : Shape m) :
+    UInt8.ofNat ((absMsg m).type * 16 + (absMsg m).flags) = m.hdr.tf := by
+  cases m with
+  | publish h t p =>
+    show UInt8.ofNat (3 * 16 + (Wire.b2n (pubDup h) * 8 + (UInt8.ofNat (pubQoS h)).toNat * 2 + Wire.b2n (pubRetain h))) = h.tf
+    have ht : h.type = 3 := hs
+    rw [u8_pubQoS, pub_flags, ← ht, tf_eq]
+  | ack h =>
+    obtain ⟨ht, hf⟩ := hs
+    simp only [Msg.hdr]
+    rw [← tf_eq h, hf]
+    rcases ht with ht | ht | ht | ht | ht <;> rw [ht] <;>
+      simp [absMsg, ht, Wire.Packet.type, Wire.Packet.flags, defaultFlagsOf, defaultFlags]
+  | subscribe h ts qs =>
+    show UInt8.ofNat (8 * 16 + 2) = h.tf
+    rw [← tf_eq h, hs.1, hs.2.1]
+  | suback h cs =>
+    show UInt8.ofNat (9 * 16 + 0) = h.tf
+    rw [← tf_eq h, hs.1, hs.2]
+  | unsubscribe h ts =>
+    show UInt8.ofNat (10 * 16 + 2) = h.tf
+    rw [← tf_eq h, hs.1, hs.2]
+  | connect h c =>
+    show UInt8.ofNat (1 * 16 + 0) = h.tf
+    rw [← tf_eq h, hs.1, hs.2.1]
+  | connack h a b =>
+    show UInt8.ofNat (2 * 16 + 0) = h.tf
+    rw [← tf_eq h, hs.1, hs.2]
+  | bare h =>
+    obtain ⟨ht, hf, _⟩ := hs
+    simp only [Msg.hdr]
+    rw [← tf_eq h, hf]
+    rcases ht with ht | ht | ht <;> rw [ht] <;>
+      simp [absMsg, ht, Wire.Packet.type, Wire.Packet.flags]
+
+theorem encV_hd (V : Bytes) (m : Msg) (hs : Shape m) :
+    Wire.encodeV V (absMsg m) = m.hdr.tf :: (V ++ (absMsg m).body) := by
+  unfold Wire.encodeV
+  rw [head_tf m hs]
+
+theorem body_publish (h : Hdr) (t p : Bytes) :
+    (absMsg (.publish h t p)).body =
+      Wire.str t ++ ((if pubQoS h = 0 then [] else Wire.u16 (u16of h.pid)) ++ p) := by
+  simp only [absMsg, Wire.Packet.body]
   by_cases hq : pubQoS h = 0
   · have : UInt8.ofNat (pubQoS h) = 0 := (u8_pubQoS_zero h).mpr hq
     simp only [hq, this, if_true]
-    simp [Wire.str]
-    congr 1; omega
+    simp
   · have : ¬ UInt8.ofNat (pubQoS h) = 0 := fun e => hq ((u8_pubQoS_zero h).mp e)
     simp only [hq, this, if_false]
-    simp [Wire.str, Wire.u16]
-    congr 1; omega
+    simp
 
-theorem wire_ack (h : Hdr) (hs : Shape (.ack h)) :
-    Wire.encode (absMsg (.ack h)) = h.tf :: 2 :: Wire.u16 (u16of h.pid) := by
-  obtain ⟨ht, hf⟩ := hs
-  rw [← tf_eq h, hf]
-  rcases ht with ht | ht | ht | ht | ht
-  all_goals
-    rw [ht]
-    simp [absMsg, ht, Wire.encode, Wire.Packet.type, Wire.Packet.flags, Wire.Packet.body, Wire.u16,
-      defaultFlagsOf, defaultFlags, Wire.varint]
+theorem body_ack (h : Hdr) : (absMsg (.ack h)).body = Wire.u16 (u16of h.pid) := by
+  simp only [absMsg]
+  repeat' split
+  all_goals rfl
 
-theorem wire_subscribe (h : Hdr) (ts : List Bytes) (qs : List UInt8) (ht : h.type = 8) (hf : h.flags = 2) :
-    Wire.encode (absMsg (.subscribe h ts qs)) =
-      h.tf :: (Wire.varint (2 + (encFilters (ts.zip qs)).length) ++ (Wire.u16 (u16of h.pid) ++ encFilters (ts.zip qs))) := by
-  simp only [absMsg, Wire.encode, Wire.Packet.type, Wire.Packet.flags, Wire.Packet.body]
-  rw [← tf_eq h, ht, hf]
-  have e : (ts.zip qs).flatMap (fun f => Wire.str f.1 ++ [f.2]) = encFilters (ts.zip qs) := rfl
-  rw [e]
-  have l : (Wire.u16 (u16of h.pid) ++ encFilters (ts.zip qs)).length = 2 + (encFilters (ts.zip qs)).length := by
-    simp [Wire.u16]; omega
-  rw [l]
-
-theorem wire_suback (h : Hdr) (codes : Bytes) (ht : h.type = 9) (hf : h.flags = 0) :
-    Wire.encode (absMsg (.suback h codes)) =
-      h.tf :: (Wire.varint (2 + codes.length) ++ (Wire.u16 (u16of h.pid) ++ codes)) := by
-  simp only [absMsg, Wire.encode, Wire.Packet.type, Wire.Packet.flags, Wire.Packet.body]
-  rw [← tf_eq h, ht, hf]
-  simp [Wire.u16]
-  congr 1; omega
-
-theorem wire_unsubscribe (h : Hdr) (ts : List Bytes) (ht : h.type = 10) (hf : h.flags = 2) :
-    Wire.encode (absMsg (.unsubscribe h ts)) =
-      h.tf :: (Wire.varint (2 + (encTopics ts).length) ++ (Wire.u16 (u16of h.pid) ++ encTopics ts)) := by
-  simp only [absMsg, Wire.encode, Wire.Packet.type, Wire.Packet.flags, Wire.Packet.body]
-  rw [← tf_eq h, ht, hf]
-  have e : ts.flatMap Wire.str = encTopics ts := rfl
-  rw [e]
-  have l : (Wire.u16 (u16of h.pid) ++ encTopics ts).length = 2 + (encTopics ts).length := by
-    simp [Wire.u16]; omega
-  rw [l]
-
-/-- the bytes of the reference encoding in front of the packet identifier … -/
-def wpre : Msg → Bytes
-  | .publish h t p => h.tf :: (Wire.varint (2 + t.length + 2 + p.length) ++ Wire.str t)
-  | .ack h => [h.tf, 2]
-  | .subscribe h ts qs => h.tf :: Wire.varint (2 + (encFilters (ts.zip qs)).length)
-  | .suback h codes => h.tf :: Wire.varint (2 + codes.length)
-  | .unsubscribe h ts => h.tf :: Wire.varint (2 + (encTopics ts).length)
+/-- the bytes of the body in front of the packet identifier … -/
+def bpre : Msg → Bytes
+  | .publish _ t _ => Wire.str t
   | _ => []
 
 /-- … and behind it -/
-def wpost : Msg → Bytes
+def bpost : Msg → Bytes
   | .publish _ _ p => p
   | .subscribe _ ts qs => encFilters (ts.zip qs)
   | .suback _ codes => codes
@@ -114,38 +114,43 @@ def HasId : Msg → Prop
   | .ack _ | .subscribe _ _ _ | .suback _ _ | .unsubscribe _ _ => True
   | _ => False
 
-theorem wire_split (m : Msg) (hs : Shape m) (hid : HasId m) (hp : m.hdr.pid.length = 2) :
-    Wire.encode (absMsg m) = wpre m ++ (m.hdr.pid ++ wpost m) := by
+theorem body_split (m : Msg) (hid : HasId m) (hp : m.hdr.pid.length = 2) :
+    (absMsg m).body = bpre m ++ (m.hdr.pid ++ bpost m) := by
   cases m with
   | publish h t p =>
     have hq : ¬ pubQoS h = 0 := hid
-    rw [wire_publish h t p hs]
-    simp only [hq, if_false, wpre, wpost, Msg.hdr]
+    rw [body_publish]
+    simp only [hq, if_false, bpre, bpost, Msg.hdr]
     rw [← pid_two h hp]
-    simp
   | ack h =>
-    rw [wire_ack h hs]
-    simp only [wpre, wpost, Msg.hdr]
+    rw [body_ack]
+    simp only [bpre, bpost, Msg.hdr]
     rw [← pid_two h hp]
     simp
   | subscribe h ts qs =>
-    rw [wire_subscribe h ts qs hs.1 hs.2.1]
-    simp only [wpre, wpost, Msg.hdr]
+    show Wire.u16 (u16of h.pid) ++ encFilters (ts.zip qs) = _
+    simp only [bpre, bpost, Msg.hdr]
     rw [← pid_two h hp]
     simp
   | suback h codes =>
-    rw [wire_suback h codes hs.1 hs.2]
-    simp only [wpre, wpost, Msg.hdr]
+    show Wire.u16 (u16of h.pid) ++ codes = _
+    simp only [bpre, bpost, Msg.hdr]
     rw [← pid_two h hp]
     simp
   | unsubscribe h ts =>
-    rw [wire_unsubscribe h ts hs.1 hs.2]
-    simp only [wpre, wpost, Msg.hdr]
+    show Wire.u16 (u16of h.pid) ++ encTopics ts = _
+    simp only [bpre, bpost, Msg.hdr]
     rw [← pid_two h hp]
     simp
   | connect h c => exact absurd hid id
   | connack h a b => exact absurd hid id
   | bare h => exact absurd hid id
+
+/-- an encoding with remaining-length bytes `V`, cut at the packet identifier -/
+theorem encV_split (V : Bytes) (m : Msg) (hs : Shape m) (hid : HasId m) (hp : m.hdr.pid.length = 2) :
+    Wire.encodeV V (absMsg m) = (m.hdr.tf :: (V ++ bpre m)) ++ (m.hdr.pid ++ bpost m) := by
+  rw [encV_hd V m hs, body_split m hid hp]
+  simp
 
 theorem set_two (pre post : Bytes) (a b a' b' : UInt8) :
     ((pre ++ (a :: b :: post)).set pre.length a').set (pre.length + 1) b' = pre ++ (a' :: b' :: post) := by
@@ -371,270 +376,5 @@ theorem step_of_setter (m : Msg) (s : Setter) : Step m (applySetter m s).1 := by
           constructor
           · intro e; rw [e] at this; simp at this; omega
           · intro e; rw [e] at this; simp at this; omega
-
-/-! ## the invariant of a message that is not dirty -/
-
-/-- while a message object is not dirty: its decode buffer is the reference encoding of its current
-fields, the type/flags byte is a view of the buffer's first byte, and the packet identifier (if the packet
-has one on the wire) is a view of the two identifier bytes of that encoding -/
-structure CleanInv (m : Msg) : Prop where
-  buf : m.hdr.dbuf = Wire.encode (absMsg m)
-  tfIn : m.hdr.tfInBuf = true
-  pidIn : HasId m → m.hdr.pid.length = 2 ∧ m.hdr.pidOff = some (wpre m).length
-  pidOut : ¬ HasId m → m.hdr.pid.length ≠ 2
-
-theorem setHdr_hdr (m : Msg) (h' : Hdr) : (m.setHdr h').hdr = h' := by cases m <;> rfl
-
-theorem setHdr_wpre (m : Msg) (h' : Hdr) (e : h'.tf = m.hdr.tf) : wpre (m.setHdr h') = wpre m := by
-  cases m <;> simp only [Msg.setHdr, wpre, Msg.hdr] at e ⊢ <;> rw [e]
-
-theorem setHdr_wpost (m : Msg) (h' : Hdr) : wpost (m.setHdr h') = wpost m := by
-  cases m <;> rfl
-
-theorem setHdr_hasId (m : Msg) (h' : Hdr) (e : h'.tf = m.hdr.tf) : HasId (m.setHdr h') ↔ HasId m := by
-  cases m <;> simp only [Msg.setHdr, HasId, Msg.hdr, pubQoS, Hdr.flags] at e ⊢
-  rw [e]
-
-theorem wire_hd (m : Msg) (hs : Shape m) : ∃ r, Wire.encode (absMsg m) = m.hdr.tf :: r := by
-  cases m with
-  | publish h t p => exact ⟨_, wire_publish h t p hs⟩
-  | ack h => exact ⟨_, wire_ack h hs⟩
-  | subscribe h ts qs => exact ⟨_, wire_subscribe h ts qs hs.1 hs.2.1⟩
-  | suback h cs => exact ⟨_, wire_suback h cs hs.1 hs.2⟩
-  | unsubscribe h ts => exact ⟨_, wire_unsubscribe h ts hs.1 hs.2⟩
-  | connect h c =>
-    refine ⟨Wire.varint (absMsg (.connect h c)).body.length ++ (absMsg (.connect h c)).body, ?_⟩
-    show UInt8.ofNat (1 * 16 + 0) :: _ = h.tf :: _
-    rw [← tf_eq h, hs.1, hs.2.1]
-  | connack h a b =>
-    refine ⟨Wire.varint (absMsg (.connack h a b)).body.length ++ (absMsg (.connack h a b)).body, ?_⟩
-    show UInt8.ofNat (2 * 16 + 0) :: _ = h.tf :: _
-    rw [← tf_eq h, hs.1, hs.2]
-  | bare h =>
-    obtain ⟨ht, hf, _⟩ := hs
-    refine ⟨[0], ?_⟩
-    simp only [Msg.hdr]
-    rw [← tf_eq h, hf]
-    rcases ht with ht | ht | ht <;> rw [ht] <;>
-      simp [absMsg, ht, Wire.encode, Wire.Packet.type, Wire.Packet.flags, Wire.Packet.body, Wire.varint]
-
-/-- `SetPacketID(v)` on an identifier slice that is a view of `dbuf[off:off+2]` -/
-def writePid (h : Hdr) (v off : Nat) : Hdr :=
-  { h with pid := putU16 v,
-           dbuf := (h.dbuf.set off (UInt8.ofNat (v / 256))).set (off + 1) (UInt8.ofNat (v % 256)) }
-
-/-- a setter call that leaves the object clean keeps the invariant -/
-theorem clean_step {m m' : Msg} (st : Step m m') (hs : Shape m) (hs' : Shape m') (hc : CleanInv m)
-    (hd' : m'.hdr.dirty = false) : CleanInv m' := by
-  cases st with
-  | same => exact hc
-  | dirty _ h => rw [h] at hd'; cases hd'
-  | flags h t p v hm hq =>
-    subst hm
-    have ht : h.type = 3 := hs
-    have ht' : (h.setTf v).type = 3 := hs'
-    have hb : h.dbuf = Wire.encode (absMsg (.publish h t p)) := hc.buf
-    have hti : h.tfInBuf = true := hc.tfIn
-    have hpid : (h.setTf v).pid = h.pid := rfl
-    have hpo : (h.setTf v).pidOff = h.pidOff := rfl
-    have htf : (h.setTf v).tf = v := rfl
-    constructor
-    · show (h.setTf v).dbuf = _
-      rw [wire_publish _ t p ht', htf, hpid]
-      have : (h.setTf v).dbuf = h.dbuf.set 0 v := by unfold Hdr.setTf; simp only [hti, if_true]
-      rw [this, hb, wire_publish h t p ht]
-      by_cases h0 : pubQoS h = 0
-      · have h0' := hq.mpr h0
-        simp only [h0, h0', if_true, List.set_cons_zero]
-      · have h0' : ¬ pubQoS (h.setTf v) = 0 := fun e => h0 (hq.mp e)
-        simp only [h0, h0', if_false, List.set_cons_zero]
-    · exact hti
-    · intro hid
-      have hid0 : HasId (.publish h t p) := fun e => hid (hq.mpr e)
-      obtain ⟨a, b⟩ := hc.pidIn hid0
-      refine ⟨a, ?_⟩
-      show (h.setTf v).pidOff = _
-      have b' : h.pidOff = some (wpre (.publish h t p)).length := b
-      rw [hpo, b']
-      simp only [wpre, List.length_cons]
-    · intro hid
-      have hid0 : ¬ HasId (.publish h t p) := fun e => hid (fun e' => e (hq.mp e'))
-      exact hc.pidOut hid0
-  | pid v hv hm =>
-    rw [setHdr_hdr] at hd'
-    have hkeep := setPacketID_keeps m.hdr v
-    by_cases hv0 : v = 0
-    · have : m.hdr.setPacketID v = m.hdr := by unfold Hdr.setPacketID; rw [if_pos hv0]
-      rw [this]
-      have : m.setHdr m.hdr = m := by cases m <;> rfl
-      rw [this]; exact hc
-    · by_cases hl : m.hdr.pid.length ≠ 2
-      · have : (m.hdr.setPacketID v).dirty = true := by
-          unfold Hdr.setPacketID; rw [if_neg hv0, if_pos hl]
-        rw [this] at hd'; cases hd'
-      · simp only [ne_eq, Decidable.not_not] at hl
-        have hid : HasId m := by
-          by_cases hid : HasId m
-          · exact hid
-          · exact absurd hl (hc.pidOut hid)
-        obtain ⟨_, hoff⟩ := hc.pidIn hid
-        have hset : m.hdr.setPacketID v = writePid m.hdr v (wpre m).length := by
-          unfold Hdr.setPacketID writePid
-          rw [if_neg hv0, if_neg (by simp [hl]), hoff]
-        rw [hset]
-        generalize hH : writePid m.hdr v (wpre m).length = H
-        have Htf : H.tf = m.hdr.tf := by rw [← hH]; rfl
-        have Hpid : H.pid = putU16 v := by rw [← hH]; rfl
-        have Hoff : H.pidOff = m.hdr.pidOff := by rw [← hH]; rfl
-        have Hin : H.tfInBuf = m.hdr.tfInBuf := by rw [← hH]; rfl
-        have Hbuf : H.dbuf = (m.hdr.dbuf.set (wpre m).length (UInt8.ofNat (v / 256))).set ((wpre m).length + 1) (UInt8.ofNat (v % 256)) := by
-          rw [← hH]; rfl
-        have hid' : HasId (m.setHdr H) := (setHdr_hasId m H Htf).mpr hid
-        have hsH : Shape (m.setHdr H) := by rw [← hH, ← hset]; exact hs'
-        constructor
-        · rw [setHdr_hdr, Hbuf, hc.buf, wire_split m hs hid hl]
-          rw [wire_split (m.setHdr H) hsH hid' (by rw [setHdr_hdr, Hpid]; rfl)]
-          rw [setHdr_hdr, setHdr_wpre m H Htf, setHdr_wpost, Hpid]
-          match hp : m.hdr.pid, hl with
-          | [a, b], _ =>
-            simp only [List.cons_append, List.nil_append]
-            rw [set_two]
-            rfl
-        · rw [setHdr_hdr, Hin]; exact hc.tfIn
-        · intro _
-          rw [setHdr_hdr, Hpid, Hoff, hoff, setHdr_wpre m H Htf]
-          exact ⟨rfl, rfl⟩
-        · intro hn; exact absurd hid' hn
-
-/-! ## reachable messages -/
-
-/-- the invariant of every message object reachable through the API from `New()` or from a decoder
-whose input was a reference encoding -/
-def RInv (m : Msg) : Prop := Shape m ∧ (m.hdr.dirty = false → CleanInv m)
-
-theorem step_dirty {m m' : Msg} (st : Step m m') (hd : m.hdr.dirty = true) : m'.hdr.dirty = true := by
-  cases st with
-  | same => exact hd
-  | dirty _ h => exact h
-  | flags h t p v hm _ => subst hm; exact hd
-  | pid v _ _ => rw [setHdr_hdr]; exact (setPacketID_keeps m.hdr v).2.2 hd
-
-theorem setter_dirty (m : Msg) (s : Setter) (hd : m.hdr.dirty = true) : (applySetter m s).1.hdr.dirty = true :=
-  step_dirty (step_of_setter m s) hd
-
-theorem rinv_set (m : Msg) (s : Setter) (hi : RInv m) : RInv (applySetter m s).1 := by
-  obtain ⟨hs, hc⟩ := hi
-  have hs' := shape_set m s hs
-  refine ⟨hs', fun hd' => ?_⟩
-  have hd : m.hdr.dirty = false := by
-    cases hdm : m.hdr.dirty with
-    | false => rfl
-    | true => rw [setter_dirty m s hdm] at hd'; cases hd'
-  exact clean_step (step_of_setter m s) hs hs' (hc hd) hd'
-
-theorem rinv_new {t : Nat} {m : Msg} (h : Msg.new t = some m) : RInv m := by
-  obtain ⟨hd, hs⟩ := freshInv_new h
-  exact ⟨hs, fun hc => by rw [hd] at hc; cases hc⟩
-
-/-- the bytes a decoder accepted are the reference encoding of the fields it returned
-(minimal remaining-length encoding; every CONNECT field announced by a flag present) -/
-def CanonicalSrc (src : Bytes) (d : Decoded) : Prop := Wire.encode (absMsg d.msg) = src.take d.n
-
-instance (src : Bytes) (d : Decoded) : Decidable (CanonicalSrc src d) :=
-  inferInstanceAs (Decidable (Wire.encode (absMsg d.msg) = src.take d.n))
-
-theorem shape_dec {t : Nat} {src : Bytes} {d : Decoded} (h : decodeNew t src = .ok d) : Shape d.msg :=
-  (decodeNew_alias h).shape
-
-theorem ack_body_len (h : Hdr) : (absMsg (.ack h)).body.length = 2 := by
-  simp only [absMsg]
-  repeat' split
-  all_goals rfl
-
-theorem rinv_dec {t : Nat} {src : Bytes} {d : Decoded} (h : decodeNew t src = .ok d) (hcan : CanonicalSrc src d) :
-    RInv d.msg := by
-  have ok := (decodeNew_total t src).of_ok h
-  obtain ⟨hs, htf, h', hn, hdec, hbuf, hpid⟩ := decodeNew_alias h
-  refine ⟨hs, fun _ => ?_⟩
-  have hh := hdr_decode_ok hdec
-  have hn_eq : d.n = hn + h'.remlen := by
-    have e1 : d.msg.hdr.dbuf = src.take d.n := ok.dbuf
-    have e2 : h'.dbuf = src.take (hn + h'.remlen) := hh.dbuf
-    have := congrArg List.length (e1.symm.trans (hbuf.trans e2))
-    rw [List.length_take, List.length_take] at this
-    have := ok.n_le
-    have := hh.fits
-    omega
-  obtain ⟨hhn, hL⟩ := hn_of_canonical hdec (absMsg d.msg) d.n hcan.symm ok.n_le hn_eq
-  refine ⟨ok.dbuf.trans hcan.symm, htf, ?_, ?_⟩
-  · intro hid
-    cases hm : d.msg with
-    | publish hd t p =>
-      rw [hm] at hid hpid hhn hs
-      have hq : ¬ pubQoS hd = 0 := hid
-      simp only [PidDec, hq, if_false] at hpid
-      refine ⟨hpid.1, ?_⟩
-      simp only [Msg.hdr]
-      rw [hpid.2, hhn]
-      have hbl : (absMsg (.publish hd t p)).body.length = 2 + t.length + 2 + p.length := by
-        simp only [absMsg, Wire.Packet.body]
-        have : ¬ UInt8.ofNat (pubQoS hd) = 0 := fun e => hq ((u8_pubQoS_zero hd).mp e)
-        simp only [this, if_false]
-        simp [Wire.str, Wire.u16]; omega
-      rw [hbl]
-      simp [wpre, Wire.str]; omega
-    | ack hd =>
-      rw [hm] at hid hpid hhn hs
-      refine ⟨hpid.1, ?_⟩
-      simp only [Msg.hdr]
-      rw [hpid.2, hhn, ack_body_len]
-      rfl
-    | subscribe hd ts qs =>
-      rw [hm] at hid hpid hhn hs
-      refine ⟨hpid.1, ?_⟩
-      simp only [Msg.hdr]
-      rw [hpid.2, hhn]
-      have hbl : (absMsg (.subscribe hd ts qs)).body.length = 2 + (encFilters (ts.zip qs)).length := by
-        show (Wire.u16 _ ++ encFilters (ts.zip qs)).length = _
-        simp [Wire.u16]; omega
-      rw [hbl]
-      simp [wpre]; omega
-    | suback hd codes =>
-      rw [hm] at hid hpid hhn hs
-      refine ⟨hpid.1, ?_⟩
-      simp only [Msg.hdr]
-      rw [hpid.2, hhn]
-      have hbl : (absMsg (.suback hd codes)).body.length = 2 + codes.length := by
-        show (Wire.u16 _ ++ codes).length = _
-        simp [Wire.u16]; omega
-      rw [hbl]
-      simp [wpre]; omega
-    | unsubscribe hd ts =>
-      rw [hm] at hid hpid hhn hs
-      refine ⟨hpid.1, ?_⟩
-      simp only [Msg.hdr]
-      rw [hpid.2, hhn]
-      have hbl : (absMsg (.unsubscribe hd ts)).body.length = 2 + (encTopics ts).length := by
-        show (Wire.u16 _ ++ encTopics ts).length = _
-        simp [Wire.u16]; omega
-      rw [hbl]
-      simp [wpre]; omega
-    | connect hd c => rw [hm] at hid; exact absurd hid id
-    | connack hd a b => rw [hm] at hid; exact absurd hid id
-    | bare hd => rw [hm] at hid; exact absurd hid id
-  · intro hid
-    cases hm : d.msg with
-    | publish hd t p =>
-      rw [hm] at hid hpid
-      have hq : pubQoS hd = 0 := Decidable.not_not.mp hid
-      simp only [PidDec, hq, if_true] at hpid
-      simp only [Msg.hdr]; rw [hpid]; simp
-    | ack hd => rw [hm] at hid; exact absurd trivial hid
-    | subscribe hd ts qs => rw [hm] at hid; exact absurd trivial hid
-    | suback hd codes => rw [hm] at hid; exact absurd trivial hid
-    | unsubscribe hd ts => rw [hm] at hid; exact absurd trivial hid
-    | connect hd c => rw [hm] at hpid; simp only [Msg.hdr]; rw [show hd.pid = [] from hpid]; simp
-    | connack hd a b => rw [hm] at hpid; simp only [Msg.hdr]; rw [show hd.pid = [] from hpid]; simp
-    | bare hd => rw [hm] at hpid; simp only [Msg.hdr]; rw [show hd.pid = [] from hpid]; simp
 
 end Mqtt.Proofs.Codec
